@@ -592,3 +592,77 @@ func Harness_C02_Events() {
 	}
 	nd.Assert("events:no-other-calls", len(calls) == wantCalls)
 }
+
+// dotted references with one to three components, with or without the application name,
+// to this or another application, in a field and in an endpoint parameter: the compiled
+// reference names exactly the components written
+//verif:shard-quick 6 2
+//verif:shard-thorough 6 2
+func Harness_C02_DottedReferences() {
+	n := nd.IntRange("components", 1, 3)
+	qual := nd.IntRange("qualified-by", 0, 2) // nothing, own application, another application
+	inParam := nd.Bool("in-endpoint-parameter")
+	comps := []string{"Outer", "inner", "leaf"}[:n]
+	ref := ""
+	for i, c := range comps {
+		if i > 0 {
+			ref += "."
+		}
+		ref += c
+	}
+	wantApp := ""
+	switch qual {
+	case 1:
+		ref = "App." + ref
+		wantApp = "App"
+	case 2:
+		ref = "Other." + ref
+		wantApp = "Other"
+	}
+	decl := "    !type Outer:\n        inner <:\n            leaf <: int\n"
+	text := "App:\n" + decl
+	if inParam {
+		text += "    e(p <: " + ref + "):\n        ...\n"
+	} else {
+		text += "    !type User:\n        x <: " + ref + "\n"
+	}
+	text += "\nOther:\n" + decl
+	mod, err, crashed, _ := feCompileText(text)
+	nd.Assert("dotted:compiles", !crashed && err == nil && mod != nil)
+	if crashed || err != nil || mod == nil {
+		return
+	}
+	var t *sysl.Type
+	if inParam {
+		ps := mod.Apps["App"].Endpoints["e"].GetParam()
+		if len(ps) == 1 {
+			t = ps[0].Type
+		}
+	} else {
+		t = mod.Apps["App"].Types["User"].GetTuple().GetAttrDefs()["x"]
+	}
+	r := t.GetTypeRef().GetRef()
+	nd.Assert("dotted:is-a-reference", r != nil)
+	if r == nil {
+		return
+	}
+	// an unqualified reference whose first component is the application's own type stays
+	// local; a qualified one keeps (or, for the own application, may drop) the application
+	// name, but in every case the written components follow in full
+	path := r.Path
+	app := ""
+	if r.Appname != nil && len(r.Appname.Part) == 1 {
+		app = r.Appname.Part[0]
+	}
+	if app == "" && len(path) == n+1 {
+		app, path = path[0], path[1:]
+	}
+	okPath := len(path) == n
+	for i := range comps {
+		if i < len(path) && path[i] != comps[i] {
+			okPath = false
+		}
+	}
+	nd.Assert("dotted:every-component-kept-in-order", okPath)
+	nd.Assert("dotted:application-as-written", app == wantApp || (qual == 1 && app == ""))
+}
